@@ -87,8 +87,11 @@ def run(cmd, **kw):
     return subprocess.run(cmd, shell=True, capture_output=True, text=True, **kw)
 
 def main():
-    shutil.rmtree(OUT, ignore_errors=True)
-    os.makedirs(OUT)
+    # regenerate the diffs and the index only: RESULTS.md and baseline.json are results, not inputs
+    os.makedirs(OUT, exist_ok=True)
+    for f in os.listdir(OUT):
+        if f.endswith(".diff") or f == "index.json":
+            os.remove(os.path.join(OUT, f))
     run(f"git -C {REPO} worktree remove --force {WT}")
     r = run(f"git -C {REPO} worktree add --detach {WT} HEAD")
     if r.returncode != 0:
